@@ -540,7 +540,7 @@ def mutants(mb):
     # new hazards
     mb.add_text("multiple-of-round", M, "        try:\n            return not (data % self.mult_of)\n        except OverflowError:", "        try:\n            quotient = data / self.mult_of\n            return abs(quotient - round(quotient)) < 1e-9\n        except ZeroDivisionError:", "C03.R1", "MultipleOfConstraint")
     mb.add_text("multiple-of-overflow", M, "        try:\n            return not (data % self.mult_of)\n        except OverflowError:  # integer too large to be converted to float\n            from fractions import Fraction\n\n            return not (Fraction(data) % Fraction(self.mult_of))\n", "        return not (data % self.mult_of)\n", "C03.R1", "MultipleOfConstraint")
-    mb.add_text("union-bytype-no-keyerror", M, "        except KeyError:\n            raise bad_type(data, *self.method_by_cls) from None\n", "        except IndexError:\n            raise bad_type(data, *self.method_by_cls) from None\n", "C03.R", "UnionByTypeMethod")
+    mb.add_text("union-bytype-unguarded-lookup", M, "        method = self.method_by_cls.get(data_cls)\n        if method is None:\n", "        method = self.method_by_cls[data_cls] if data is not None else None\n        if method is None:\n", "C03.R", "UnionByTypeMethod")
     mb.add_text("discriminator-no-typeerror", M, "        except (TypeError, KeyError):\n            raise ValidationError(\n                [],", "        except KeyError:\n            raise ValidationError(\n                [],", "C03.R1", "DiscriminatorMethod")
     mb.add_text("int-no-guard", M, "        if not isinstance(data, int) or isinstance(data, bool):\n            raise bad_type(data, int)\n        return data", "        if data < 0 and not isinstance(data, int):\n            raise bad_type(data, int)\n        return data", "C03.R1", "IntMethod")
     mb.add_text("list-no-guard", M, "        if not isinstance(data, list):\n            raise bad_type(data, list)\n        elt_errors: Optional[ErrorDict] = None\n        values: list = [None] * len(data)", "        elt_errors: Optional[ErrorDict] = None\n        values: list = [None] * len(data)", "C03.R1", "ListMethod")
